@@ -68,7 +68,7 @@ def gen_world(rng):
         path = posixpath.join(d, f"f{i}{G.STYLES[style][7]}")
         holder = f"20{10 + i} {rng.pick(G.HOLDERS)}"
         expr = rng.pick(EXPRS)
-        kind = rng.wpick([(10, "header"), (3, "dotlicense"), (1, "binary"), (2, "snippet")] +
+        kind = rng.wpick([(10, "header"), (3, "dotlicense"), (1, "binary"), (2, "snippet"), (1, "empty-dotlicense")] +
                          ([(2, "override"), (2, "closest"), (1, "aggregate")] if glob_kind == "toml" else []) +
                          ([(3, "dep5")] if glob_kind == "dep5" else []))
         e = {"path": path, "kind": kind, "c": [f"SPDX-FileCopyrightText: {holder}"], "l": [expr], "reads": path}
@@ -96,6 +96,14 @@ def gen_world(rng):
             files.append({"path": path, "content": content})
             e["l"] = [expr, expr2]
             e["marker_offset"] = content.encode().find(b"SPDX-SnippetBegin")
+        elif kind == "empty-dotlicense":
+            # an existing (here: empty) FILE.license is the only source for FILE: its own header does not count
+            files.append({"path": path, "content": _header(style, [holder], [expr]) + "\n\n" + body})
+            files.append({"path": path + ".license", "content": ""})
+            e["c"], e["l"] = [], []
+            e["reads"] = path + ".license"
+            e["shadowed"] = path
+            e["implied_defect"] = True
         elif kind == "dotlicense":
             # the file itself carries conflicting information that must be ignored
             other = rng.pick(["", _header(style, ["1999 Ignored Person"], ["LicenseRef-MustNotBeSeen"]) + "\n"])
@@ -106,7 +114,7 @@ def gen_world(rng):
         elif kind == "binary":
             path = posixpath.join(d, f"f{i}.png")
             e["path"] = path
-            files.append({"path": path, "content": "\x89PNG\r\n\x1a\n\x00\x00\x00\rIHDR" + "\udcfe" * 20})
+            files.append({"path": path, "content": G.BINARY})
             files.append({"path": path + ".license", "content": f"SPDX-FileCopyrightText: {holder}\nSPDX-License-Identifier: {expr}\n"})
             e["reads"] = path + ".license"
             e["shadowed"] = path
@@ -132,6 +140,17 @@ def gen_world(rng):
             e["c"] = [holder]
             e["l"] = [strip_plus(ids_of(expr)[0])]
         entries.append(e)
+    if glob_kind == "toml" and rng.chance(0.4):
+        # a binary and a text file with the same suffix; the binary one is licensed through REUSE.toml (so it is
+        # examined itself), the text one through its own header. Processing order must not matter.
+        holder_b, expr_b = "2014 Data Owner", rng.pick(G.VALID)
+        first, second = rng.pick([("data/x1.dat", "data/x2.dat"), ("data/x2.dat", "data/x1.dat")])
+        files.append({"path": first, "content": G.BINARY})
+        tables.append({"path": first, "precedence": rng.pick(["closest", "aggregate"]), "SPDX-FileCopyrightText": holder_b, "SPDX-License-Identifier": expr_b})
+        entries.append({"path": first, "kind": "closest", "c": [holder_b], "l": [expr_b], "reads": first})
+        holder_t, expr_t = "2013 Text Owner", rng.pick(G.VALID)
+        files.append({"path": second, "content": f"# SPDX-FileCopyrightText: {holder_t}\n# SPDX-License-Identifier: {expr_t}\n1;2;3\n"})
+        entries.append({"path": second, "kind": "header-plain", "c": [f"SPDX-FileCopyrightText: {holder_t}"], "l": [expr_t], "reads": second})
     if glob_kind == "toml" and rng.chance(0.5):
         # one 'closest' annotation shared by several files: a file with a partial header takes the other half from it,
         # header-less files take everything (visited in listing order by one process, or spread over pool chunks)
@@ -163,7 +182,7 @@ def gen_world(rng):
                 i = strip_plus(i)
                 lic_files[i] = f"LICENSES/{i}.txt"
     # ---- defects ----------------------------------------------------------------------
-    defects = []
+    defects = [("no-info", e["path"]) for e in entries if e.get("implied_defect")]
     for _ in range(rng.wpick([(3, 0), (4, 1), (2, 2), (1, 3), (1, 4)])):
         k = rng.pick(["missing-text", "unused-text", "bad-in-licenses", "deprecated", "no-extension", "no-copyright",
                       "no-licence", "no-info", "bad-used", "binary-no-info"])
@@ -203,7 +222,7 @@ def gen_world(rng):
                 e["l"] = []
             defects.append((k, e["path"]))
         elif k == "binary-no-info" and not any(e["path"] == "docs/logo.png" for e in entries):
-            files.append({"path": "docs/logo.png", "content": "\x89PNG\r\n\x1a\n\x00\x00\x00\rIHDR" + "\udcfe" * 20})
+            files.append({"path": "docs/logo.png", "content": G.BINARY})
             entries.append({"path": "docs/logo.png", "kind": "plain-binary", "c": [], "l": [], "reads": "docs/logo.png"})
             defects.append((k, "docs/logo.png"))
         elif k == "bad-used" and header_entries:
